@@ -756,7 +756,11 @@ func c11ScaleSuite(r *Result, rng *rand.Rand, tier string) {
 		}
 		switch tier {
 		case "quick", "search":
-			plans = append(plans, plan{fn, o, 0}, plan{fn, under[(i+rot/3)%3], 24})
+			big := 0
+			if fn == "D" {
+				big = 64 // thirteen relations: a random half of the matrix per run
+			}
+			plans = append(plans, plan{fn, o, big}, plan{fn, under[(i+rot/3)%3], 24})
 		default:
 			for _, p := range []int{3, 17, 499, 500, 501, 640, 1200, 502 + rng.Intn(3000)} {
 				plans = append(plans, plan{fn, p, 0})
